@@ -1,5 +1,5 @@
 HOOK_COMMITS = ["33a37d7"]
-FIX_COMMITS = ["547ab85", "bf5a7b0", "e00c6fc"]
+FIX_COMMITS = ["547ab85", "bf5a7b0", "e00c6fc", "c4f8c04"]
 NOTES = ("All checks are property-based tests / fuzz targets over the real go-dcp code built from /repo's working tree "
          "(build tag verif). Exit 2 = inconclusive (build/infrastructure/budget), never a pass. See DESIGN.md.")
 NOT_APPLICABLE = {}
@@ -84,5 +84,55 @@ META = {
         text="The real metric collector over the real stream and the real VBucketDiscovery (dynamic membership via the event bus) is scraped at "
              "generated points incl. before open and inside a rebalance, with server high seqnos placed below/at/above the tracked positions.",
         note="HTTP layer (fiber/prometheus registry) not exercised; /states/offset serves the same GetOffsets() map C04 checks. persist_seq_no, latency and agent-queue gauges are not asserted.",
+    ),
+    "C07": dict(
+        technique="exhaustive enumeration of replica tables + rapid schedules of threshold reports against a real observer gate + rapid report sequences on a simulated multi-node cluster with request-count synchronisation",
+        text="(a) the min-rule is checked on every table of 1..4 copies over a 20-entry alphabet (168k tables, exhaustive) and on sampled full-range "
+             "tables; (b) the real gate is driven by concurrent feeder/reporter goroutines with a Lamport-style necessary condition that cannot "
+             "false-alarm on scheduling; (c) the real rollbackMitigation polls OBSERVE_SEQNO on a 4-server simulated cluster (0..3 replicas, "
+             "unassigned replicas, vbUUID flips, regressions, transient TMPFAIL, config revision bumps); single-copy steps are synchronised by "
+             "request count, which makes the oracle exact and two-sided.",
+        note="simnode's OBSERVE_SEQNO/cluster-map model and gocbcore are trusted; liveness clauses are bounded waits (>= 400x the poll interval) re-run once in a fresh environment before being reported.",
+    ),
+    "C08": dict(
+        technique="rapid property-based testing on the wire: generated failover logs / rollback points / post-rollback streams against an independent branch-selection and catch-up model",
+        text="The real client.OpenStream + openStreamWithRollback run over gocbcore against the simulated node, under the real stream, checkpoint "
+             "and observer; both DCP_STREAM_REQ packets are decoded at the node and compared with the model, and the consumer's view is "
+             "compared with the catch-up filter model.",
+        note="simnode is the trusted server model; R and the failover log are generated independently (a real server constrains them more).",
+    ),
+    "C11": dict(
+        technique="rapid-generated notification bursts placed by barriers (close / delay / reopen) in child processes, trace oracle (bracket grammar, counts, ranges, offsets, timing lower bound) + schedule stress",
+        text="The harness owns the schedule at CloseStream, OpenStream and the lifecycle callbacks and measures the placements inside the delay; "
+             "the library's own goroutine race (finish-token waiter vs. reopen), which it does not own, is attacked statistically by thousands "
+             "of zero-delay rebalances under scheduling pressure. Two defects found here were repaired (fix: commits e00c6fc, c4f8c04).",
+        note="API path (GET /rebalance, PUT /membership/info) is represented by the direct call / bus publication it makes; timing-placed cases that arrive late are discarded and counted.",
+    ),
+    "C13": dict(
+        technique="rapid-generated (lifecycle state x component configuration x history) cases, each a child process running the real Start()/Close(); crash / hang / leftover activity observed",
+        text="Close() or SIGINT is delivered at barriers: idle, consumer inside ConsumeEvent, save blocked in the store (later ok / failing), with "
+             "auto/manual checkpointing, health check, HTTP API and real rollback-mitigation polling (simulated cluster). The known finding "
+             "close_in_rebalance_window (crash / hang when Close arrives while a rebalance has the stream closed) is excluded by construction, "
+             "counted, and replayed on every run.",
+        note="Durability is asserted only where the stream is open at Close; quiet-window checks allow one interval of grace per component.",
+    ),
+    "C14": dict(
+        technique="rapid property-based testing of key construction on the wire (independent right-to-left decoder), history engine with internal-key events, and a closed-loop simulation with feedback",
+        text="All KV writes of the real cbMetadata and cbMembership are observed at the simulated node; injectivity is checked with an independent "
+             "decoder over hostile group names; dotted names must stop the process (child); the closed loop streams every checkpoint write back "
+             "and requires the write rate to reach zero.",
+        note="simnode routes and reports keys as gocbcore sent them; the closed loop's quiescence is a bounded real-time wait (12 quiet ticks within 4 s + 200 ticks).",
+    ),
+    "C15": dict(
+        technique="fault-class x configuration generation, each case a child process running the real dcp.Start(); exit status / stderr / call log oracle with a control group",
+        text="Every guard of the start-up path is hit with single and multiple faults on generated subsets of vBuckets; a control group of "
+             "fault-free configurations must start, so the check cannot pass by 'everything dies'.",
+        note="Interface-level fakes; Couchbase-backend load failures are covered on the wire in C20.",
+    ),
+    "C19": dict(
+        technique="exhaustive enumeration of the 2^5 round patterns + generated round sequences / Stop placements, each a child process with a scripted Ping",
+        text="The fail-stop is a panic on a library goroutine, so every case is a process; ping timestamps, exit status and Stop() latency are "
+             "compared with the statement. The select race 'tick vs. cancel' is provoked with a 100 us interval.",
+        note="One-sided timing bounds with >= 10 % slack around the library's hard-coded 1 s retry wait.",
     ),
 }
